@@ -154,7 +154,8 @@ class NPProxy:
     def array(self, x, dtype=None, **kw):
         if dtype is not None and _isf(dtype):
             dtype = float
-            if has_sym(x):
+            if has_sym(x) or S.ENGINE is not None:
+                # under the engine a float array may later receive symbolic values in place
                 return self._r.array(x, dtype=object, **kw)
         return self._r.array(x, dtype=dtype, **kw)
 
@@ -252,6 +253,11 @@ class NPProxy:
                 [False if isinstance(i, SymReal) else bool(self._r.isnan(i)) for i in arr.ravel()]
             ).reshape(arr.shape)
         return self._r.isnan(a, **kw)
+
+    def isclose(self, a, b, rtol=1e-05, atol=1e-08, **kw):
+        if isinstance(a, SymReal) or isinstance(b, SymReal):
+            return abs(a - b) <= atol + rtol * abs(b)
+        return self._r.isclose(a, b, rtol=rtol, atol=atol, **kw)
 
     def dot(self, a, b, **kw):
         return self._r.dot(a, b, **kw)
